@@ -90,7 +90,7 @@ Proof. exact step_compose_panics. Qed.
 (* ---- non-vacuity: partial_ReLU(1,0) with arena indices 0,1,2; a history in which an oracle that answers
         Infeasible on every even call makes the pruned composition drop edges, keep the last edge, and merge kept
         children into their parents; elimination removes a child of the root (forwarding refused there) and forwards
-        below it; a pruned addition; apply_func with the zero map; reduce merges the two equal terminals ---- *)
+        below it; an addition (the operators test every new edge; this oracle keeps them); apply_func with the zero map; reduce merges the two equal terminals ---- *)
 Example C04_nonvacuous :
   constructed 1 1 c04_init /\ compat_hist (1, 1)%nat c04_hist = true /\
   (exists t, run 0 c04_init c04_hist = HOk t /\ cwftb 1 1 t = true) /\
